@@ -863,6 +863,16 @@ func runShard(prop string, seed int64, idx int, n int, slow int, realOpen bool) 
 			if r.Intn(6) == 0 {
 				sh.execResp()
 			} else {
+				if r.Intn(5) == 0 { // a local update was left half-way: the sync handler discards it
+					cur0 := f.genState(r.Intn(2), false)
+					n := f.pay(cur0, r.Intn(2), false)
+					stg := channel.Transaction{State: n, Sigs: make([]wallet.Sig, 2)}
+					if r.Intn(2) == 0 {
+						stg.Sigs[f.me] = f.sign(f.h.Acc, n)
+					}
+					f.restore(channel.Signing, stg, f.fullTx(cur0))
+					s = f.snapshot()
+				}
 				sh.execSync(f.syncCase(s))
 			}
 		}
